@@ -8,7 +8,7 @@ import z3
 from .expr import cat, lit
 from .front import FuncInfo
 from .smt import FALSE, TRUE, conj, disj
-from .state import Effect, Frame, MergeAbort, PathEnd, Unsupported
+from .state import Effect, Frame, MergeAbort, PathEnd, Restart, Unsupported
 from .values import (B, CallA, Dyn, Elems, Fn, HObj, I, IteA, IteV, JoinA, K, Lit, MapPart, Obj, OpA, PreSeq,
                      QuoteA, S, Sym, Tu, V)
 
@@ -28,6 +28,23 @@ def has_jump(stmts) -> bool:
             if isinstance(n, (ast.Return, ast.Raise, ast.Break, ast.Continue, ast.Yield, ast.YieldFrom)):
                 return True
     return False
+
+
+def only_returns(stmts) -> bool:
+    """the only jumps are `return`s (break/continue inside nested loops are local to those loops)"""
+    def walk(nodes, in_loop):
+        for n in nodes:
+            if isinstance(n, (ast.Raise, ast.Yield, ast.YieldFrom, ast.Try)):
+                return False
+            if isinstance(n, (ast.Break, ast.Continue)) and not in_loop:
+                return False
+            if isinstance(n, (ast.FunctionDef, ast.Lambda)):
+                continue
+            inner = in_loop or isinstance(n, (ast.For, ast.While))
+            if not walk(list(ast.iter_child_nodes(n)), inner):
+                return False
+        return True
+    return walk(list(stmts), False)
 
 
 class StmtMixin:
@@ -206,6 +223,13 @@ class StmtMixin:
         if not has_jump(st.body) and not has_jump(st.orelse):
             if self.merge_if(t, st):
                 return
+        elif only_returns(st.body) and only_returns(st.orelse):
+            fr = self.frames[-1]
+            key = (fr.func.qual if fr.func else "?", st.lineno)
+            if fr.loop_depth == 0 and self.merge_depth == fr.entry_merge_depth and key not in self.nomerge_ifs \
+                    and self.dec is not None:
+                if self.merge_if_ret(t, st, key):
+                    return
         if self.decide(t):
             self.exec_block(st.body)
         else:
@@ -227,6 +251,59 @@ class StmtMixin:
             return False
         _v, merged = r
         fr.locals = merged
+        return True
+
+    def merge_if_ret(self, t, st, key) -> bool:
+        """if-statement whose arms may `return`: explore both arms, join; returning paths become a pending
+        (guarded) early return of the frame, the others continue under the negated guard"""
+        fr = self.frames[-1]
+        before = dict(fr.locals)
+        base = self.st
+        nb, ne, nw = len(base.pc), len(base.effects), len(base.writes)
+        flat = []
+        for cond, stmts in ((t, st.body), (z3.Not(t), st.orelse)):
+            start = base.snapshot()
+            start.pc.append(cond)
+            if not self.smt.feasible(start.pc):
+                continue
+
+            def run(stmts=stmts):
+                self.exec_block(stmts)
+                return None
+
+            outs = self.sub_explore(run, start, limit=64)
+            if outs is None or any(o.status not in ("normal", "return") for o in outs):
+                fr.locals = before
+                return False
+            flat.extend(outs)
+        fr.locals = before
+        if not flat:
+            raise PathEnd("infeasible")
+        rets = [o for o in flat if o.status == "return"]
+        norms = [o for o in flat if o.status == "normal"]
+        for o in flat:
+            g = conj(o.state.pc[nb:])
+            o.guard = g
+            self.adopt_heap(base, o.state)
+            for ef in o.state.effects[ne:]:
+                ef.guard = g if ef.guard is None else z3.And(g, ef.guard)
+            base.effects.extend(o.state.effects[ne:])
+            base.writes.extend(o.state.writes[nw:])
+        rv = None
+        for o in reversed(rets):
+            v = o.value if o.value is not None else K(None)
+            rv = v if rv is None else self.ite_val(o.guard, v, rv)
+        if not norms:
+            raise PathEnd("return", rv)
+        cur = None
+        for o in reversed(norms):
+            cur = dict(o.locals) if cur is None else self.merge_locals(o.guard, o.locals, cur)
+        fr.locals = cur
+        if rets:
+            rg = z3.simplify(disj([o.guard for o in rets]))
+            ng = z3.Not(rg)
+            base.pc.append(ng)
+            fr.pending.append((rg, rv, len(base.effects), key))
         return True
 
     # ------------------------------------------------------------------ try
@@ -271,7 +348,11 @@ class StmtMixin:
                 for item in p.items:
                     self.bind_target(st.target, item)
                     try:
-                        self.exec_block(st.body)
+                        self.frames[-1].loop_depth += 1
+                        try:
+                            self.exec_block(st.body)
+                        finally:
+                            self.frames[-1].loop_depth -= 1
                     except PathEnd as pe:
                         if pe.kind == "break":
                             return
@@ -301,11 +382,13 @@ class StmtMixin:
             return K(None)
 
         self.in_loop += 1
+        fr.loop_depth += 1
         try:
             outs = self.explore(run, start=base)
             # locals of each outcome: explore restores frames, so recompute per outcome below
         finally:
             self.in_loop -= 1
+            fr.loop_depth -= 1
         # explore() ran `run` on copies of the frame list; but fr.locals was rebound inside run: capture per outcome
         # by re-running is expensive, so run() stores locals in the outcome state notes instead.
         return self.join_loop(st, p, elem, lid, base, before, outs)
